@@ -19,7 +19,7 @@ ASSUMPTIONS = ['fail cells (iteration cap 1-2 from a cold start, targets far bey
                'grid values only']
 
 LOOKS = [-55.0, -30.0, -10.0, -1.0, 0.0, 1.0, 10.0, 30.0, 55.0]
-DISTS = [10.0, 25.0, 100.0, 300.0, 600.0, 1000.0, 1800.0]
+DISTS = [10.0, 25.0, 100.0, 300.0, 600.0, 1000.0, 1800.0, 3000.0]
 STORED = [0.0, 10 / 60, -0.5, 3.0, 20.0]
 WINDS = ['none', 'cross15', 'tail', 'head', 'seg3']
 LOADS = {'base': {}, 'g1': {'dm': 'G1', 'bc': 0.365, 'mv': 2600.0}, 'pellet': {'dm': 'G1', 'bc': 0.03, 'mv': 900.0},
@@ -117,6 +117,9 @@ def plan(tier):
                 cells.append([look, d, 0.0, 'none', 'base', sh])
         for look in (0.0, 30.0):
             cells.append([look, 1800.0, -0.5, 'none', 'base', 2.0])
+        # the hard corner: steep sight line x long distance x a stored zero that is far off (the search is then convergent but not monotone)
+        for look, d, st in itertools.product([55.0, -55.0, 30.0], [1000.0, 1800.0, 3000.0], [20.0, -0.5]):
+            cells.append([look, d, st, 'none', 'base', 2.0])
     else:
         for look, d, st, w in itertools.product(LOOKS, DISTS, STORED, WINDS):
             cells.append([look, d, st, w, 'base', 2.0])
